@@ -144,6 +144,16 @@ class Cast(StrCompareMixin, pmbl.Call):
     def __getinitargs__(self):
         return (self.name, self.expression, self.kind)
 
+    def __getstate__(self):
+        # ``name`` and ``expression`` are read-only views on the underlying
+        # ``pmbl.Call`` attributes, so the generic pymbolic ``__setstate__``
+        # (one ``setattr`` per init arg) cannot be used; pickle the underlying
+        # attributes instead
+        return (self.function, self.parameters, self.kind)
+
+    def __setstate__(self, state):
+        self.function, self.parameters, self.kind = state
+
     mapper_method = intern('map_cast')
 
     @property
